@@ -647,6 +647,137 @@ def gen_composed(rng, kind):
     return {"vars": dts, "values": vals, "blocks": blocks}
 
 
+# --------------------------------------------------------------------------- families of ==-equal scalars in ONE block (round 10)
+# `0.0 == -0.0 == 0 == False`, `1 == 1.0 == True`, `2 == 2.0 == np.float32(2) == np.int64(2)` - equal, equally hashed,
+# but different constants (sign of zero, Python type, numpy scalar type decide the promoted Constant / the result type).
+# A dispatcher that remembers promoted constants under Python equality gives the SECOND member of a family the first
+# one's Constant. So: one block, several members of one family one after the other (both orders, both sides, several
+# operators interleaved), every step compared with numpy bit for bit (sign of zero, +-inf, nan) - through the built
+# model + onnxruntime AND through the propagated value.
+EQ_FAMILIES = {
+    "zero": [["float", 0.0], ["float", -0.0], ["int", 0], ["bool", False]],
+    "one": [["int", 1], ["float", 1.0], ["bool", True]],
+    "two": [["int", 2], ["float", 2.0], ["np", 9, 2], ["np", 3, 2]],
+}
+FAM_VALUES = {"f": [-7.5, -0.0, 0.0, 2.5, 3.0, -2.0], "i": [-7, -2, 1, 3, 5, 2]}
+FAM_OPS = ["mul", "truediv", "add", "sub", "floordiv"]
+
+
+def fam_is_zero(c):
+    return c[0] != "np" and c[1] == 0
+
+
+def gen_family_blocks(rng, n_random):
+    blocks = []
+    for fam, members in EQ_FAMILIES.items():
+        for d in (9, 10, 2):
+            for op in FAM_OPS:
+                for order in (members, members[::-1], members[1:] + members[:1]):
+                    steps = []
+                    for c in order:
+                        for side in ("r", "l"):
+                            steps.append({"op": op, "side": side, "c": c})
+                    blocks.append({"family": fam, "dtype": d, "steps": steps})
+    for _ in range(n_random):
+        fam = rng.choice(list(EQ_FAMILIES))
+        members = EQ_FAMILIES[fam]
+        steps = [{"op": rng.choice(FAM_OPS), "side": rng.choice("rl"), "c": rng.choice(members)} for _ in range(rng.randrange(3, 9))]
+        blocks.append({"family": fam, "dtype": rng.choice([9, 10, 8, 2, 3, 0]), "steps": steps})
+    for b in blocks:
+        kind = env_kind(b["dtype"])
+        # outside the claim: division by a zero CONSTANT in floor division, float floor division by a Var holding zeros;
+        # a numpy scalar on the LEFT (numpy's own dispatch hands it to Var.__r*__ as a Python scalar - not the dispatcher's doing)
+        b["steps"] = [s_ for s_ in b["steps"]
+                      if not (s_["op"] == "floordiv" and ((s_["side"] == "r" and fam_is_zero(s_["c"])) or (s_["side"] == "l" and kind == "f")))
+                      and not (s_["side"] == "l" and s_["c"][0] == "np")]
+    return [b for b in blocks if len(b["steps"]) >= 2]
+
+
+def env_kind(d):
+    return "f" if d in (8, 9, 10) else "i"
+
+
+def describe_family(env, blk):
+    def cs(c):
+        return repr(env.realise(c)) if c[0] != "np" else f"np.{env.dtypes[c[1]]}({c[2]})"
+    parts = [f"x {SYM[s_['op']]} {cs(s_['c'])}" if s_["side"] == "r" else f"{cs(s_['c'])} {SYM[s_['op']]} x" for s_ in blk["steps"]]
+    return f"(x: {env.dtypes[blk['dtype']]}) in ONE block [tp=1,cp=1]: " + "; ".join(parts)
+
+
+def bits_equal(np, got, want):
+    got, want = np.asarray(got), np.asarray(want)
+    if got.dtype != want.dtype or got.shape != want.shape:
+        return None
+    if want.dtype.kind == "f":
+        return (np.isnan(want) & np.isnan(got)) | ((got == want) & (np.signbit(got) == np.signbit(want)))
+    return got == want
+
+
+def family_case(env: Env, blk):
+    """-> ([(key, what)], number of steps compared). Model-free."""
+    np = env.np
+    kind = env_kind(blk["dtype"])
+    arr = np.array(FAM_VALUES[kind], dtype=env.dtypes[blk["dtype"]])
+    consts = [env.realise(s_["c"]) for s_ in blk["steps"]]
+    want = []
+    for s_, c in zip(blk["steps"], consts):
+        a, b = (arr, c) if s_["side"] == "r" else (c, arr)
+        k, w = numpy_expect(np, s_["op"], a, b)
+        want.append(np.asarray(w) if k == "ok" else None)
+    out, compared = [], 0
+    for path in ("built model + onnxruntime", "propagated value"):
+        with warnings.catch_warnings():
+            warnings.simplefilter("ignore")
+            x = (env.spox.argument(env.spox.Tensor(arr.dtype, ("N",))) if path.startswith("built") else env.op.const(arr))
+            res = []
+            with env.fut.operator_overloading(env.op, type_promotion=True, constant_promotion=True):
+                for s_, c in zip(blk["steps"], consts):
+                    try:
+                        r = PYOP[s_["op"]](x, c) if s_["side"] == "r" else PYOP[s_["op"]](c, x)
+                        res.append(r if isinstance(r, env.Var) else TypeError(f"returned {type(r).__name__}"))
+                    except Exception as e:  # noqa: BLE001
+                        res.append(e)
+        live = [k for k, r in enumerate(res) if isinstance(r, env.Var) and want[k] is not None]
+        for k, r in enumerate(res):
+            if isinstance(r, Exception) and want[k] is not None:
+                out.append((f"family:{blk['steps'][k]['op']}:refused:{type(r).__name__}",
+                            f"step {k} of {describe_family(env, blk)} raises {type(r).__name__}: {r}; numpy computes {want[k].dtype}"))
+        if not live:
+            continue
+        if path.startswith("built"):
+            with warnings.catch_warnings():
+                warnings.simplefilter("ignore")
+                model = env.spox.build({"x": x}, {f"r{k}": res[k] for k in live})
+            sess = env.ort.InferenceSession(model.SerializeToString(), env.so, providers=["CPUExecutionProvider"])
+            got_all = dict(zip([o.name for o in sess.get_outputs()], sess.run(None, {"x": arr})))
+            got = {k: got_all[f"r{k}"] for k in live}
+        else:
+            got = {}
+            for k in live:
+                v = res[k]._get_value() if hasattr(res[k], "_get_value") else None
+                if v is not None:
+                    got[k] = v
+        for k in live:
+            if k not in got:
+                continue
+            compared += 1
+            w = np.broadcast_to(want[k], np.asarray(got[k]).shape) if want[k].shape == () else want[k]
+            ok = bits_equal(np, got[k], w)
+            op = blk["steps"][k]["op"]
+            if ok is None:
+                out.append((f"family:{op}:result-dtype", f"step {k} of {describe_family(env, blk)} ({path}): spox {np.asarray(got[k]).dtype}{np.asarray(got[k]).shape}, numpy {w.dtype}{w.shape}"))
+            elif not ok.all():
+                i = int(np.argwhere(~ok)[0][0])
+                if op == "floordiv" and w.dtype.kind == "f" and classify_floordiv_float(np, arr[i] if blk["steps"][k]["side"] == "r" else consts[k],
+                                                                                      consts[k] if blk["steps"][k]["side"] == "r" else arr[i], np.asarray(got[k])[i], w[i], w.dtype):
+                    key = "floordiv:float:rounded-quotient"
+                else:
+                    key = f"family:{op}:wrong-value" + (":propagated" if path.startswith("prop") else "")
+                out.append((key, f"step {k} of {describe_family(env, blk)} ({path}) at x = {arr[i]!r}: spox {np.asarray(got[k])[i]!r}, numpy {w[i]!r} "
+                                 f"(compared bit for bit: sign of zero, infinities, nan)"))
+    return out, compared
+
+
 def run_history(env: Env, hist, shape=()):
     """Execute a history on the real code. -> (per-step outcome dicts, per-step result Vars, base Vars)"""
     np = env.np
@@ -1488,6 +1619,7 @@ CHECKS = {
     "strict": lambda env, c: strictness_case(env, c["op"], c["a"], c["b"]),
     "outside": lambda env, c: outside_case(env, c["op"], c["a"], c.get("b")),
     "history": lambda env, c: history_value_case(env, c["hist"])[0],
+    "family": lambda env, c: family_case(env, c["block"])[0],
     "scoped": lambda env, c: scoped_case(env, c["prog"])[1],
     "symbolic": lambda env, c: symbolic_case(env, c),
     "shape": lambda env, c: shape_value_case(env, c["op"], c["da"], c["db"], tuple(c["sa"]), tuple(c["sb"])),
@@ -1939,6 +2071,29 @@ def run(ck: core.Check):
     ck.cov["history_cases"] = {"correspondence": len(hists_c) + len(hists_v), "value_oracle": len(hists_v), **hstats}
     ck.cov["history_mismatches"] = hist_mism
 
+
+    # ------------------------------------------------------------------ ==-equal scalar families inside one block (round 10)
+    fam_blocks = gen_family_blocks(_random.Random(f"C17-families-{ck.seed}"), 150 if boost else ck.pick(60, 600))
+    fam_stats = {"blocks": len(fam_blocks), "steps": sum(len(b["steps"]) for b in fam_blocks), "compared_bit_for_bit": 0,
+                 "families": {k: [repr(x) for x in v] for k, v in EQ_FAMILIES.items()}, "paths": ["built model + onnxruntime", "propagated value"],
+                 "var_values": FAM_VALUES}
+    results = forked_batch(lambda b: family_case(env, b), fam_blocks, size=32)
+    for b, res in zip(fam_blocks, results):
+        ck.count(("family", b["family"], b["dtype"]))
+        if res[0] != "ok":
+            if res[0] == "exc" and res[1].split(":")[0] in ("AttributeError", "ImportError", "ModuleNotFoundError", "NameError"):
+                ck.broken("correspondence", "C17 family oracle could not observe spox", f"{describe_family(env, b)}: {res[1]}")
+            else:
+                ck.failure("family:runtime-crash" if res[0] == "crash" else "family:oracle-exception",
+                           f"{describe_family(env, b)}: {res[1]}", {"check": "family", "block": b})
+            continue
+        for key, what in res[1][0]:
+            ck.failure(key, what, {"check": "family", "block": b})
+        fam_stats["compared_bit_for_bit"] += res[1][1]
+    ck.count(None, fam_stats["compared_bit_for_bit"])
+    if fam_stats["compared_bit_for_bit"] < fam_stats["steps"]:
+        ck.broken("generator", "C17 family oracle starved", str({k: fam_stats[k] for k in ("blocks", "steps", "compared_bit_for_bit")}))
+    ck.cov["equal_scalar_families"] = fam_stats
 
     # ------------------------------------------------------------------ scoped histories (which settings are in force)
     progs = list(FIXED_SCOPED) + [gen_scoped(rng, rng.randrange(1, 9)) for _ in range(ck.pick(250, 2500))]
